@@ -439,6 +439,20 @@ package sql
 //@ iface (datasource.DataSourceManager).GetCachedResources
 //@   ensures result != nil
 
+// handing a batch to the worker pool: the pool runs the closure LATER, while run() keeps appending to
+// the accumulation buffer - the batch must be a private copy of everything accumulated (not a slice
+// that shares the buffer's backing array), and the buffer is emptied only because of that
+//@ func (*AsyncWorker).doBranchCommit
+//@   prop C11
+//@   requires aw != nil && phaseCtxs != nil && aw.commitWorker != nil && aw.commitWorker.ctx != nil
+//@   modifies heap.all, ghost.all
+//@   let n0 := len(*phaseCtxs)
+//@   let j := some(int, "j")
+//@   ensures handed-over-when-there-is-something: n0 > 0 ==> called("Do#1")
+//@   at call Do#1: assert batch-is-a-private-copy: len(copyPhaseCtxs) == n0 && !aliases(copyPhaseCtxs, *phaseCtxs) && len(*phaseCtxs) == 0
+//@   at call Do#1: assert batch-holds-every-accumulated-request: 0 <= j && j < n0 ==> copyPhaseCtxs[j].Xid == old((*phaseCtxs)[j].Xid) && copyPhaseCtxs[j].BranchID == old((*phaseCtxs)[j].BranchID) && copyPhaseCtxs[j].ResourceID == old((*phaseCtxs)[j].ResourceID)
+//@   may_panic
+
 //@ func (*AsyncWorker).dealWithGroupedContexts
 //@   prop C11
 //@   requires aw != nil && aw.resourceMgr != nil && aw.rePutBackToQueue != nil && ghost.bd_calls == 0 && ghost.bd_fails == 0 && ghost.conns_out == 0
